@@ -332,6 +332,10 @@ def blockBound (c : RCfg) (b : BlockEv) : Nat := (if b.proposed then c.fullRewar
 
 /-! ### the check the correspondence driver runs on the real ledger sums of a block -/
 
+/-- `pool · (4096+8) · 2⁻²³ + 6`: what `float32` accumulation of the category totals can add on the code as found
+(at most 4096 additions, relative error `2⁻²⁴` each, doubled for second-order terms and decimal conversions) -/
+def epochSlack (pool : Nat) : Nat := pool * 4104 / 8388608 + 6
+
 inductive BoundVerdict
   | ok (growth : Int)
   | negative
@@ -346,7 +350,9 @@ def checkBlockBound (c : RCfg) (proposed : Bool) (epochLen : Option Nat) (before
   if neg ≠ 0 then .negative
   else if ¬ (afterTxs + totalFee + totalTips ≤ before) then .txsIncrease
   else
-    let pool : Int := match epochLen with | some n => epochPool c n | none => 0
+    -- as found, the epoch distribution may exceed the pool by float32 rounding of the category totals
+    -- (`Props/C04.lean: chain_bound_asFound`); the slack is the one the Go oracle uses to classify the open finding
+    let pool : Int := match epochLen with | some n => epochPool c n + epochSlack (epochPool c n) | none => 0
     let rewardBound : Int := if proposed then (c.fullReward : Int) + (splitFee c totalFee).2 + totalTips else 0
     if after - afterTxs ≤ rewardBound + pool then .ok (after - before)
     else .exceeds (rewardBound + pool)
